@@ -3,6 +3,7 @@ package reader
 import (
 	"bufio"
 	"io"
+	"ti/verifhook"
 )
 
 type LexerReader struct {
@@ -37,6 +38,7 @@ func (lr *LexerReader) Read() rune {
 	}
 
 	if lr.pos >= len(lr.runes) {
+		verifhook.EOFRead()
 		lr.char = 0
 		return 0
 	}
